@@ -38,8 +38,8 @@ pub(crate) mod verif_cmd {
     // ---------------------------------------------------------------- E-FS: the output path "o"
     pub const N: usize = 8;
     pub struct Fs { pub exists: bool, pub len: usize, pub data: [u8; N], pub creates: usize, pub appends_opened: usize, pub pos: usize, pub append: bool,
-                    pub overflow: bool, pub writes: usize, pub flushes: usize }
-    pub static mut FS: Fs = Fs { exists: false, len: 0, data: [0; N], creates: 0, appends_opened: 0, pos: 0, append: false, overflow: false, writes: 0, flushes: 0 };
+                    pub overflow: bool, pub writes: usize, pub flushes: usize, pub removes: usize }
+    pub static mut FS: Fs = Fs { exists: false, len: 0, data: [0; N], creates: 0, appends_opened: 0, pos: 0, append: false, overflow: false, writes: 0, flushes: 0, removes: 0 };
     pub static mut IN_EXISTS: bool = true; // the input path "i"
     pub static mut OO_APPEND: bool = false;
     pub static mut OO_CREATE: bool = false;
@@ -53,6 +53,33 @@ pub(crate) mod verif_cmd {
     pub fn open_model<P: AsRef<Path>>(_p: P) -> std::io::Result<File> {
         unsafe { IN_OPENS += 1; if IN_EXISTS { Ok(File::from_raw_fd(8)) } else { Err(std::io::Error::from(std::io::ErrorKind::NotFound)) } }
     }
+    /// unlink / rename on the output path (the only path these harnesses ever hand to a command that could be removed)
+    pub fn remove_model<P: AsRef<Path>>(_p: P) -> std::io::Result<()> {
+        unsafe {
+            FS.removes += 1;
+            if FS.exists { FS.exists = false; FS.len = 0; Ok(()) } else { Err(std::io::Error::from(std::io::ErrorKind::NotFound)) }
+        }
+    }
+    pub fn rename_model<P: AsRef<Path>, Q: AsRef<Path>>(_p: P, _q: Q) -> std::io::Result<()> {
+        unsafe { FS.removes += 1; FS.exists = false; FS.len = 0; Ok(()) }
+    }
+    /// lseek on the output descriptor. Linux: a descriptor opened with O_APPEND starts at offset 0 and only moves to the
+    /// end of the file when the first write happens (FS.pos is kept that way by oo_open / file_write_model).
+    pub fn seek_model(_f: &mut File, pos: std::io::SeekFrom) -> std::io::Result<u64> {
+        unsafe {
+            let np: i64 = match pos {
+                std::io::SeekFrom::Start(n) => n as i64,
+                std::io::SeekFrom::Current(d) => FS.pos as i64 + d,
+                std::io::SeekFrom::End(d) => FS.len as i64 + d,
+            };
+            if np < 0 { return Err(std::io::Error::from(std::io::ErrorKind::InvalidInput)); }
+            if np as usize > N { FS.overflow = true; return Ok(FS.pos as u64); }
+            FS.pos = np as usize;
+            Ok(np as u64)
+        }
+    }
+    pub fn stream_position_model(_f: &mut File) -> std::io::Result<u64> { unsafe { Ok(FS.pos as u64) } }
+    pub fn stream_len_model(_f: &mut File) -> std::io::Result<u64> { unsafe { Ok(FS.len as u64) } }
     pub fn oo_append(oo: &mut std::fs::OpenOptions, v: bool) -> &mut std::fs::OpenOptions { unsafe { OO_APPEND = v; } oo }
     pub fn oo_create(oo: &mut std::fs::OpenOptions, v: bool) -> &mut std::fs::OpenOptions { unsafe { OO_CREATE = v; } oo }
     pub fn oo_truncate(oo: &mut std::fs::OpenOptions, v: bool) -> &mut std::fs::OpenOptions { unsafe { OO_TRUNC = v; } oo }
@@ -242,6 +269,11 @@ pub(crate) mod verif_cmd {
     #[kani::stub(<std::fs::File as std::io::Write>::flush, file_flush_model)]
     #[kani::stub(<std::os::fd::OwnedFd as std::ops::Drop>::drop, ownedfd_drop_model)]
     #[kani::stub(std::path::Path::exists, exists_model)]
+    #[kani::stub(std::fs::remove_file, remove_model)]
+    #[kani::stub(std::fs::rename, rename_model)]
+    #[kani::stub(<std::fs::File as std::io::Seek>::seek, seek_model)]
+    #[kani::stub(<std::fs::File as std::io::Seek>::stream_position, stream_position_model)]
+    #[kani::stub(<std::fs::File as std::io::Seek>::stream_len, stream_len_model)]
     #[kani::stub(passterm::isatty, isatty_model)]
     #[kani::stub(ask_user_stderr, ask_user_model)]
     #[kani::stub(ask_pass, ask_pass_model)]
@@ -279,6 +311,7 @@ pub(crate) mod verif_cmd {
         core::mem::forget(r);
         unsafe {
             assert!(!FS.overflow, "[LIMIT] harness bound: file model holds 8 bytes");
+            assert!(FS.removes == 0, "[C13,C12] no command ever removes or renames the output path (a failure leaves the authenticated prefix / the old file in place)");
             let plen = if pre_exists { pre_len } else { 0 };
             if name_kind == 1 || pw_fail {
                 assert!(!ok, "[C12] an invalid key name or a missing password makes key generation fail");
@@ -294,6 +327,12 @@ pub(crate) mod verif_cmd {
                     while j < 4 { if j < pre_len { assert!(FS.data[j] == pre[j], "[C14] the earlier contents of the keyring are a byte prefix of the new contents"); } j += 1; }
                 } else {
                     assert!(FS.creates == 1, "[C14,C13] a new keyring file is created once");
+                }
+                // C14 "the file parses as a keyring": a section appended to a file whose last line is not terminated must not
+                // be glued to that line. `format!` is cut (returns "F"), so the separator-carrying string `format!("\n{}", ..)`
+                // shows up as 'F'; a literal '\n' written separately is accepted as well.
+                if pre_exists && pre_len > 0 && pre[pre_len - 1] != b'\n' {
+                    assert!(FS.data[plen] == b'F' || FS.data[plen] == b'\n', "[C14] a key appended to a keyring whose last line is unterminated starts on a new line (otherwise `[Key]` is glued to the previous value and the file no longer parses)");
                 }
                 assert!(FS.flushes >= 1, "[C12] the keyring is flushed before success is reported");
                 // C07/C16: data flow of the fresh randomness
@@ -318,9 +357,11 @@ pub(crate) mod verif_cmd {
     pub fn open_keyring_model(_loc: Option<String>) -> Result<Keyring, anyhow::Error> {
         unsafe {
             if KR_FAIL { return Err(anyhow::Error::msg("no keyring")); }
-            let mut keys = Vec::new();
-            if KR_N >= 1 { keys.push(Key { name: String::from("a"), public_key: mk_pk("P0"), private_key: if KR_HAS_A_SK { Some(mk_sk("S0")) } else { None } }); }
-            if KR_N >= 2 { keys.push(Key { name: String::from("b"), public_key: mk_pk("P1"), private_key: None }); }
+            // a fixed two-entry keyring (concrete length: a symbolic number of entries makes every loop over the keys - lookup,
+            // reverse lookup, drop glue - a symbolic-exit loop over heap objects, which ran the solver out of memory)
+            let mut keys = Vec::with_capacity(2);
+            keys.push(Key { name: String::from("a"), public_key: mk_pk("P0"), private_key: if KR_HAS_A_SK { Some(mk_sk("S0")) } else { None } });
+            keys.push(Key { name: String::from("b"), public_key: mk_pk("P1"), private_key: None });
             Ok(mk_keyring(keys))
         }
     }
@@ -349,23 +390,32 @@ pub(crate) mod verif_cmd {
             Ok(PublicKey::try_from(&s[..]).unwrap())
         } else { Err(dec_err()) }
     }
-    /// the library's failure: any of its error kinds (solver-chosen)
+    /// the library's failure: any of its error kinds (solver-chosen), incl. a write failure of every `ErrorKind` a closed
+    /// pipe / full disk produces
+    fn io_kind() -> std::io::Error {
+        let k: u8 = kani::any();
+        std::io::Error::from(match k % 4 { 0 => std::io::ErrorKind::BrokenPipe, 1 => std::io::ErrorKind::WriteZero, 2 => std::io::ErrorKind::UnexpectedEof, _ => std::io::ErrorKind::Other })
+    }
     fn dec_err() -> DecryptError {
         let k: u8 = kani::any();
-        match k % 4 { 0 => DecryptError::ChaPolyDecrypt, 1 => DecryptError::UnexpectedData, 2 => DecryptError::ChunkLen, _ => DecryptError::IORead(std::io::Error::from(std::io::ErrorKind::Other)) }
+        match k % 5 { 0 => DecryptError::ChaPolyDecrypt, 1 => DecryptError::UnexpectedData, 2 => DecryptError::ChunkLen, 3 => DecryptError::IOWrite(io_kind()), _ => DecryptError::IORead(io_kind()) }
+    }
+    fn enc_err() -> EncryptError {
+        let k: u8 = kani::any();
+        match k % 3 { 0 => EncryptError::UnexpectedData, 1 => EncryptError::IOWrite(io_kind()), _ => EncryptError::IORead(io_kind()) }
     }
     #[allow(clippy::too_many_arguments)]
     pub fn key_encrypt_model<T: Read, U: Write>(_p: &mut T, c: &mut U, sender: &PrivateKey, _sp: &PublicKey, _r: &PublicKey, e: Option<&PrivateKey>,
                                                 ep: Option<&PublicKey>, pk: Option<&kestrel_crypto::PayloadKey>, _f: AsymFileFormat) -> Result<(), EncryptError> {
         unsafe { LIB_RECIP_SK.copy_from_slice(sender.as_bytes()); FRESH_OK = e.is_none() && ep.is_none() && pk.is_none(); }
-        if lib_io(c) { Ok(()) } else { Err(EncryptError::UnexpectedData) }
+        if lib_io(c) { Ok(()) } else { Err(enc_err()) }
     }
     pub static mut FRESH_OK: bool = false;
     pub static mut PE_SALT: [u8; 32] = [0; 32];
     pub static mut PE_PW0: u8 = 0;
     pub fn pass_encrypt_model<T: Read, U: Write>(_p: &mut T, c: &mut U, pw: &[u8], salt: [u8; 32], _f: PassFileFormat) -> Result<(), EncryptError> {
         unsafe { PE_SALT = salt; if pw.len() > 0 { PE_PW0 = pw[0]; } }
-        if lib_io(c) { Ok(()) } else { Err(EncryptError::UnexpectedData) }
+        if lib_io(c) { Ok(()) } else { Err(enc_err()) }
     }
     pub fn pass_decrypt_model<T: Read, U: Write>(_c: &mut T, p: &mut U, pw: &[u8], _f: PassFileFormat) -> Result<(), DecryptError> {
         unsafe { if pw.len() > 0 { PE_PW0 = pw[0]; } }
@@ -404,6 +454,7 @@ pub(crate) mod verif_cmd {
     fn check_common(ok: bool, plen: usize, pre: [u8; 4], pre_exists: bool) {
         unsafe {
             assert!(!FS.overflow, "[LIMIT] harness bound: file model holds 8 bytes");
+            assert!(FS.removes == 0, "[C13,C12] no command ever removes or renames the output path (a failure leaves the authenticated prefix / the old file in place)");
             assert!(LIB_CALLS <= 1, "[C12] the library entry point is called at most once");
             if LIB_CALLS == 0 {
                 assert!(!ok, "[C12] success is never reported without the operation having been carried out");
@@ -420,14 +471,49 @@ pub(crate) mod verif_cmd {
         }
     }
 
+    // E-OS: the process's stdout as a sink that accepts everything. `Box<dyn Write>` dispatch makes `Stdout` a candidate
+    // receiver of every write the library model performs even when the output is a file; std's real implementation
+    // (ReentrantLock, ThreadId, LineWriter, futex) is environment.
+    pub static mut STDOUT_WRITES: usize = 0;
+    pub fn stdout_write_model(_s: &mut std::io::Stdout, buf: &[u8]) -> std::io::Result<usize> { unsafe { STDOUT_WRITES += 1; } Ok(buf.len()) }
+    pub fn stdout_write_all_model(_s: &mut std::io::Stdout, _buf: &[u8]) -> std::io::Result<()> { unsafe { STDOUT_WRITES += 1; } Ok(()) }
+    pub fn stdout_flush_model(_s: &mut std::io::Stdout) -> std::io::Result<()> { Ok(()) }
+    pub fn stdout_write_vectored_model(_s: &mut std::io::Stdout, _b: &[std::io::IoSlice<'_>]) -> std::io::Result<usize> { Ok(0) }
+    pub fn stdout_is_write_vectored_model(_s: &std::io::Stdout) -> bool { false }
+    pub fn stdout_write_all_vectored_model(_s: &mut std::io::Stdout, _b: &mut [std::io::IoSlice<'_>]) -> std::io::Result<()> { Ok(()) }
+    pub fn stdout_write_fmt_model(_s: &mut std::io::Stdout, _a: std::fmt::Arguments<'_>) -> std::io::Result<()> { Ok(()) }
+    pub fn stdin_read_vectored_model(_s: &mut std::io::Stdin, _b: &mut [std::io::IoSliceMut<'_>]) -> std::io::Result<usize> { Ok(0) }
+    pub fn stdin_is_read_vectored_model(_s: &std::io::Stdin) -> bool { false }
+    pub fn stdin_read_to_end_model(_s: &mut std::io::Stdin, _b: &mut Vec<u8>) -> std::io::Result<usize> { Ok(0) }
+    pub fn stdin_read_to_string_model(_s: &mut std::io::Stdin, _b: &mut String) -> std::io::Result<usize> { Ok(0) }
+    pub fn stdin_read_model(_s: &mut std::io::Stdin, _buf: &mut [u8]) -> std::io::Result<usize> { Ok(0) }
+    pub fn stdin_read_exact_model(_s: &mut std::io::Stdin, buf: &mut [u8]) -> std::io::Result<()> {
+        if buf.is_empty() { Ok(()) } else { Err(std::io::Error::from(std::io::ErrorKind::UnexpectedEof)) }
+    }
+
     macro_rules! cmd_stubs { ($f:item) => {
         #[kani::proof]
+        #[kani::stub(<std::io::Stdout as std::io::Write>::write, stdout_write_model)]
+        #[kani::stub(<std::io::Stdout as std::io::Write>::write_all, stdout_write_all_model)]
+        #[kani::stub(<std::io::Stdout as std::io::Write>::flush, stdout_flush_model)]
+        #[kani::stub(<std::io::Stdout as std::io::Write>::write_vectored, stdout_write_vectored_model)]
+        #[kani::stub(<std::io::Stdout as std::io::Write>::is_write_vectored, stdout_is_write_vectored_model)]
+        #[kani::stub(<std::io::Stdout as std::io::Write>::write_all_vectored, stdout_write_all_vectored_model)]
+        #[kani::stub(<std::io::Stdout as std::io::Write>::write_fmt, stdout_write_fmt_model)]
+        #[kani::stub(<std::io::Stdin as std::io::Read>::read_vectored, stdin_read_vectored_model)]
+        #[kani::stub(<std::io::Stdin as std::io::Read>::is_read_vectored, stdin_is_read_vectored_model)]
+        #[kani::stub(<std::io::Stdin as std::io::Read>::read_to_end, stdin_read_to_end_model)]
+        #[kani::stub(<std::io::Stdin as std::io::Read>::read_to_string, stdin_read_to_string_model)]
+        #[kani::stub(<std::io::Stdin as std::io::Read>::read, stdin_read_model)]
+        #[kani::stub(<std::io::Stdin as std::io::Read>::read_exact, stdin_read_exact_model)]
         #[kani::stub(std::fs::File::create, create_model)]
         #[kani::stub(std::fs::File::open, open_model)]
         #[kani::stub(<std::fs::File as std::io::Write>::write, file_write_model)]
         #[kani::stub(<std::fs::File as std::io::Write>::flush, file_flush_model)]
         #[kani::stub(<std::os::fd::OwnedFd as std::ops::Drop>::drop, ownedfd_drop_model)]
         #[kani::stub(std::path::Path::exists, exists_model)]
+        #[kani::stub(std::fs::remove_file, remove_model)]
+        #[kani::stub(std::fs::rename, rename_model)]
         #[kani::stub(passterm::isatty, isatty_model)]
         #[kani::stub(ask_pass, ask_pass_model)]
         #[kani::stub(read_env_pass, env_pass_model)]
@@ -449,12 +535,13 @@ pub(crate) mod verif_cmd {
         $f
     } }
 
-    cmd_stubs! {
-    /// C12/C13/C05(4): `decrypt`.
-    pub fn cmd_decrypt_flow() {
+    /// a one-character name with symbolic content and concrete length (a `String::from(if .. {"a"} else {"b"})` makes the
+    /// copy's source pointer symbolic, which the back end handles badly)
+    fn name_of(c: u8) -> String { let mut s = String::with_capacity(1); s.push(c as char); s }
+
+    fn decrypt_flow(to: String) -> bool {
         let (infile, outfile, plen, pre) = setup_common();
         let pre_exists = unsafe { FS.exists };
-        let to = String::from(if kani::any() { "a" } else if kani::any() { "b" } else { "z" });
         let r = decrypt(DecryptOptions { infile, to, outfile, keyring: if kani::any() { Some(String::from("k")) } else { None }, env_pass: kani::any() });
         let ok = r.is_ok();
         core::mem::forget(r);
@@ -465,18 +552,30 @@ pub(crate) mod verif_cmd {
                 if ok { assert!(ENCPK_N == 1 && eq32(&ENCPK_IN, &LIB_SENDER), "[C05,C12] the sender is looked up by the encoding of exactly the key the library authenticated"); }
             }
         }
+        ok
+    }
+    cmd_stubs! {
+    /// C12/C13/C05(4): `decrypt -t a` (the entry that may hold a private key).
+    pub fn cmd_decrypt_flow() {
+        let ok = decrypt_flow(String::from("a"));
         kani::cover!(ok);
         kani::cover!(!ok && unsafe { LIB_CALLS == 1 && LIB_WRITES == 1 });
         kani::cover!(!ok && unsafe { LIB_CALLS == 0 });
     } }
-
     cmd_stubs! {
-    /// C12/C13/C07: `encrypt`.
-    pub fn cmd_encrypt_flow() {
+    /// C12/C13: `decrypt -t <b|z>`: an entry without private key, or no such entry: always fails before the library call.
+    pub fn cmd_decrypt_flow_other() {
+        let c: u8 = kani::any();
+        kani::assume(c == b'b' || c == b'z');
+        let ok = decrypt_flow(name_of(c));
+        assert!(unsafe { LIB_CALLS } == 0, "[C12,C05] decryption is never attempted for a name that has no private key in the keyring");
+        kani::cover!(!ok && c == b'b');
+        kani::cover!(!ok && c == b'z');
+    } }
+
+    fn encrypt_flow(to: String, from: String) -> bool {
         let (infile, outfile, plen, pre) = setup_common();
         let pre_exists = unsafe { FS.exists };
-        let to = String::from(if kani::any() { "a" } else if kani::any() { "b" } else { "z" });
-        let from = String::from(if kani::any() { "a" } else { "b" });
         let r = encrypt(EncryptOptions { infile, to, from, outfile, keyring: if kani::any() { Some(String::from("k")) } else { None }, env_pass: kani::any() });
         let ok = r.is_ok();
         core::mem::forget(r);
@@ -487,8 +586,30 @@ pub(crate) mod verif_cmd {
                 assert!(FRESH_OK, "[C07] the CLI leaves ephemeral key and payload key to the library's CSPRNG (None, None, None)");
             }
         }
-        kani::cover!(ok);
+        ok
+    }
+    cmd_stubs! {
+    /// C12/C13/C07: `encrypt -f a -t <a|b>`.
+    pub fn cmd_encrypt_flow() {
+        let c: u8 = kani::any();
+        kani::assume(c == b'a' || c == b'b');
+        let ok = encrypt_flow(name_of(c), String::from("a"));
+        kani::cover!(ok && c == b'b');
+        kani::cover!(!ok && unsafe { LIB_CALLS == 1 });
         kani::cover!(!ok && unsafe { LIB_CALLS == 0 });
+    } }
+    cmd_stubs! {
+    /// C12/C13: `encrypt` with a sender that has no private key (b) or does not exist (z), or a recipient that does not exist.
+    pub fn cmd_encrypt_flow_other() {
+        let t: u8 = kani::any();
+        let f: u8 = kani::any();
+        kani::assume(t == b'a' || t == b'z');
+        kani::assume(f == b'a' || f == b'b' || f == b'z');
+        kani::assume(t == b'z' || f != b'a');
+        let ok = encrypt_flow(name_of(t), name_of(f));
+        kani::cover!(!ok && t == b'z');
+        kani::cover!(!ok && f == b'b');
+        assert!(unsafe { LIB_CALLS } == 0, "[C12,C05] encryption is never attempted with an unknown recipient or a sender without private key");
     } }
 
     cmd_stubs! {
